@@ -68,6 +68,7 @@ func verifHarness_C02_routing() {
 	verifConfig("maporder", verifParam("maporder", 0))
 	e := rtNewEnv(nSrc, nTgt)
 	e.identities = verifParam("identities", 0) == 1
+	e.idleAction = verifParam("idle", 0) == 1
 	e.lateFrom = nTgt
 	if late > 0 {
 		e.lateFrom = nTgt - 1
